@@ -254,6 +254,11 @@ func (c *Container) Peek(n int) []byte {
 		return c.compartments[c.offset][:n]
 	}
 
+	// Never allocate more than there is to return.
+	if l := c.Length(); n > l {
+		n = l
+	}
+
 	// Start gathering data.
 	slice := make([]byte, n)
 	copySlice := slice
